@@ -260,4 +260,81 @@ theorem big_case (s : Bool) (m en : Nat) (hm : m < 2^53) :
         | false => simp <;> omega
         | true => simp <;> omega
 
+/-- the integer m·2^e with sign -/
+def V (s : Bool) (m e : Nat) : Int := if s then -((m * 2^e : Nat) : Int) else ((m * 2^e : Nat) : Int)
+
+theorem align_nat (s : Bool) (m e k : Nat) (hk : k ≤ e) :
+    alignInt s m (e : Int) (k : Int) * ((2^k : Nat) : Int) = V s m e := by
+  have hsub : ((e : Int) - (k : Int)).toNat = e - k := by omega
+  have hsplit : m * 2^e = (m * 2^(e - k)) * 2^k := by
+    rw [Nat.mul_assoc, ← Nat.pow_add]; congr 2; omega
+  simp only [alignInt, hsub, V]
+  rw [hsplit]
+  cases s <;> simp [Int.neg_mul]
+
+/-- comparison of two doubles with non-negative exponents is comparison of the integers they denote -/
+theorem cmpReal_nat (s1 : Bool) (m1 e1 : Nat) (s2 : Bool) (m2 e2 : Nat) :
+    cmpReal (.fin s1 m1 (e1 : Int)) (.fin s2 m2 (e2 : Int)) =
+      some (if V s1 m1 e1 < V s2 m2 e2 then .lt else if V s1 m1 e1 = V s2 m2 e2 then .eq else .gt) := by
+  simp only [cmpReal]
+  have key : ∀ k : Nat, k ≤ e1 → k ≤ e2 →
+      ((alignInt s1 m1 (e1 : Int) (k : Int) < alignInt s2 m2 (e2 : Int) (k : Int)) ↔ V s1 m1 e1 < V s2 m2 e2) ∧
+      ((alignInt s1 m1 (e1 : Int) (k : Int) = alignInt s2 m2 (e2 : Int) (k : Int)) ↔ V s1 m1 e1 = V s2 m2 e2) := by
+    intro k h1 h2
+    have hK : (0 : Int) < ((2^k : Nat) : Int) := by
+      have := Nat.two_pow_pos k; omega
+    rw [← align_nat s1 m1 e1 k h1, ← align_nat s2 m2 e2 k h2]
+    exact ⟨(Int.mul_lt_mul_right hK).symm, (Int.mul_eq_mul_right_iff (by omega)).symm⟩
+  by_cases h : (e1 : Int) ≤ (e2 : Int)
+  · obtain ⟨k1, k2⟩ := key e1 (by omega) (by omega)
+    simp only [h, if_true]
+    by_cases a : V s1 m1 e1 < V s2 m2 e2
+    · simp [a, k1.mpr a]
+    · have na := fun x => a (k1.mp x)
+      by_cases b : V s1 m1 e1 = V s2 m2 e2
+      · simp [a, na, b, k2.mpr b]
+      · have nb := fun x => b (k2.mp x)
+        rw [if_neg a, if_neg b, if_neg (fun x => na x), if_neg (fun x => nb x)]
+  · obtain ⟨k1, k2⟩ := key e2 (by omega) (by omega)
+    simp only [h, if_false]
+    by_cases a : V s1 m1 e1 < V s2 m2 e2
+    · simp [a, k1.mpr a]
+    · have na := fun x => a (k1.mp x)
+      by_cases b : V s1 m1 e1 = V s2 m2 e2
+      · simp [a, na, b, k2.mpr b]
+      · have nb := fun x => b (k2.mp x)
+        rw [if_neg a, if_neg b, if_neg (fun x => na x), if_neg (fun x => nb x)]
+
+theorem truncInt_nat (s : Bool) (m e : Nat) : truncInt (.fin s m (e : Int)) = V s m e := by
+  simp [truncInt, truncAbs, V]
+
+theorem V_two63 : V false 1 63 = 2^63 := by decide
+theorem V_two64 : V false 1 64 = 2^64 := by decide
+
+/-- order against 2^63 and 2^64 for a double with non-negative exponent -/
+theorem cmp_big (s : Bool) (m en : Nat) :
+    le two63 (.fin s m (en : Int)) = decide ((2^63 : Int) ≤ truncInt (.fin s m (en : Int))) ∧
+    lt (.fin s m (en : Int)) two64 = decide (truncInt (.fin s m (en : Int)) < (2^64 : Int)) ∧
+    le two64 (.fin s m (en : Int)) = decide ((2^64 : Int) ≤ truncInt (.fin s m (en : Int))) ∧
+    lt (.fin s m (en : Int)) negTwo63 = decide (truncInt (.fin s m (en : Int)) < -(2^63 : Int)) := by
+  rw [truncInt_nat]
+  have h63 : two63 = .fin false 1 ((63 : Nat) : Int) := rfl
+  have h64 : two64 = .fin false 1 ((64 : Nat) : Int) := rfl
+  have hn63 : negTwo63 = .fin true 1 ((63 : Nat) : Int) := rfl
+  have vn : V true 1 63 = -(2^63) := by decide
+  simp only [le, lt, h63, h64, hn63, cmpReal_nat, V_two63, V_two64, vn]
+  generalize V s m en = v
+  refine ⟨?_, ?_, ?_, ?_⟩ <;> (repeat' split) <;> simp <;> omega
+
+/-- a double with negative exponent and significand below 2^53 is below 2^63 in magnitude -/
+theorem cmp_small (s : Bool) (m d : Nat) (hm : m < 2^53) :
+    le two63 (.fin s m (-((d : Int) + 1))) = false := by
+  have hne : ¬ ((63 : Int) ≤ -((d : Int) + 1)) := by omega
+  have hsub : ((63 : Int) - (-((d : Int) + 1))).toNat = 64 + d := by omega
+  have hbig : 2^53 ≤ 2^(64 + d) := Nat.pow_le_pow_right (by omega) (by omega)
+  simp only [le, two63, cmpReal, hne, if_false, alignInt, hsub, Int.sub_self, Int.toNat_zero, Nat.pow_zero,
+    Nat.mul_one, Nat.one_mul]
+  generalize 2^(64 + d) = P at *
+  cases s <;> simp <;> (repeat' split) <;> simp <;> omega
+
 end OttoVerif.C16.Lem
